@@ -390,3 +390,56 @@ func VerifC02Names() {
 	verifrt.Assert(vSameLook(l1, want), "name-resolves-as-the-reference-says")
 	verifrt.Cover("end")
 }
+
+// VerifC02Lookup: LOOKUP against the directory block for a FULL one-block directory (32 slots, all live)
+// whose names all have the maximum length the server announces (or length 1): whatever name is asked for,
+// LOOKUP finds exactly what a scan of the block finds. The name cache is cold, so it is rebuilt from the
+// disk first, as after a restart, an eviction or an aborted request (C10). Slot contents are concrete
+// (slot s names inode 300+s under a name starting with byte 'A'+s, padded with 'x'); the name looked up
+// is symbolic.
+func VerifC02Lookup() {
+	w := vWorld("d")
+	w.cmp = 1
+	dh, dx := w.vLive("dir", nfstypes.NF3DIR)
+	ip := w.vInodeAt(dx)
+	L := verifrt.Choose("namelen", 112, 1)
+	K := uint64(32)
+	verifrt.Assume(ip.Size == K*128 && ip.VerifBlks()[0] == vBlockOf(dx, 0) && ip.ShrinkSize <= 1)
+	blk := w.d.Peek(vBlockOf(dx, 0))
+	for s := uint64(0); s < K; s++ {
+		o := s * 128
+		inum, l := dir.VerifSlot(blk, s)
+		if s == 0 {
+			verifrt.Assume(inum == dx && l == 1 && blk[o+16] == '.')
+			continue
+		}
+		if s == 1 {
+			verifrt.Assume(inum == 1 && l == 2 && blk[o+16] == '.' && blk[o+17] == '.')
+			continue
+		}
+		verifrt.Assume(inum == 300+s && l == L && blk[o+16] == byte('A'+s))
+		for i := uint64(1); i < L; i++ {
+			verifrt.Assume(blk[o+16+i] == 'x')
+		}
+		// the named child is live
+		a := w.sup.Inum2Addr(300 + s)
+		ib := w.d.Peek(a.Blkno)
+		verifrt.Assume(ib[a.Off/8] == 1 && ib[a.Off/8+1] == 0 && ib[a.Off/8+2] == 0 && ib[a.Off/8+3] == 0)
+	}
+	t := nfstypes.Filename3(verifrt.Name("t", L, 1))
+	want := w.vNamedIn(blk, ip.Size, K, t)
+	r := w.nfs.NFSPROC3_LOOKUP(nfstypes.LOOKUP3args{What: nfstypes.Diropargs3{Dir: dh, Name: t}})
+	if want == 0 {
+		verifrt.Assert(r.Status == nfstypes.NFS3ERR_NOENT, "name-not-in-the-directory-answers-NOENT")
+		verifrt.Cover("absent")
+	} else {
+		verifrt.Assert(r.Status == nfstypes.NFS3_OK, "name-in-the-directory-is-found")
+		f := fh.MakeFh(r.Resok.Object)
+		verifrt.Assert(f.Ino == want, "lookup-finds-what-the-directory-block-says")
+		if want == 300+K-1 {
+			verifrt.Cover("last-slot")
+		}
+		verifrt.Cover("found")
+	}
+	verifrt.Cover("end")
+}
